@@ -66,6 +66,11 @@ META = {
         note=COMMON_NOTE,
         technique="Lean 4 proof (success-path characterisation + invariant over histories) + differential correspondence + trace monitor",
     ),
+    "C19": dict(
+        text="Partial under this technique. Proved: a generic lockset soundness theorem and a lock-order deadlock-freedom theorem for RWMutex transition systems with any number of threads, instantiated by kernel evaluation (decide) on lock/access/call facts extracted from storage/memory.go, token/hmac/hmacsha.go and config_default.go on every run: every map access of the reference store is made under its guarding mutex in a sufficient mode, lock acquisition order is acyclic, no re-acquisition, Config getters assign nothing. Support (not proof): a go test -race stress run with overlapping credentials and a deadlock watchdog supplies concrete race reports as replays.",
+        note=COMMON_NOTE + "The Go memory model, the runtime and value-level sharing (Session pointers) are not modelled; see assumptions/partial in the evidence.",
+        technique="Lean 4 proof (lockset soundness + decide over go/ast-extracted lock facts) with race-detector stress as violation search",
+    ),
     "C20": dict(
         text="Kernel-checked theorems over the Lean model of errors.go rendering and of every Write* function, for all byte strings and both formats: with debug exposure off every error writer's complete response is invariant under blanking every debug field and wrapped message of the Go error; error_debug exists iff legacy format and exposure on; the RFC-format description contains no double quote; status and error code equal the error's table entry; every writer ends with exactly one Cache-Control: no-store and Pragma: no-cache even against responder-supplied headers; the model equals a table-style specification wherever that prescribes. Tied to /repo by a differential run of the real writers into a ResponseRecorder, read back with independent JSON/URL/HTML parsers, plus a raw leak scan.",
         note=COMMON_NOTE + "Rendering half; the storage half is covered by the history driver's call-log taint scan (see partial). JSON/URL/HTML escaping are parameters validated differentially; i18n catalog and custom ResponseModeHandler not modelled.",
